@@ -429,10 +429,14 @@ def cli_cases(tier, rng):
                 if not nm and not num and not ch:
                     nm = 'GLY'
                 target = rng.choice([n for n in ['GLY', 'ALA', 'SER'] if n != nm])
+                if not nm and not num:                  # a whole chain: as a modification (mutating every residue keeps the matcher busy for minutes)
+                    reqs.append(['-modify', '%s:none' % ch])
+                    continue
                 reqs.append(['-mutate', '%s%s%s:%s' % (ch, nm, num, target)])
             if len({r[1].split(':')[0] for r in reqs if 'ter:' in r[1]}) < len([r for r in reqs if 'ter:' in r[1]]):
                 continue                                # the same terminus patched twice: reference atom names repeat (unspecified)
-            more.append((base, reqs, 'random %d' % i, rng.random() < 0.15))
+            nt = rng.random() < 0.15 and not any('ter:' in r[1] for r in reqs)      # (-nt on top of a terminus request: the same patch twice)
+            more.append((base, reqs, 'random %d' % i, nt))
         cases += more
     out = []
     for c in cases:
